@@ -1216,3 +1216,11 @@ UNIT_META["chain_clear"] = {"functions": ["table::ValueTable::clear_chain"],
 for _p in ("C06", "C14"):
     PROPS[_p]["verus_units"] = list(PROPS[_p].get("verus_units", [])) + ["chain_clear"]
 PROPS["C06"]["claim"] = PROPS["C06"]["claim"] + " Releasing a chain (Verus, any chain length): ValueTable::clear_chain turns every part from the given one to the end of the chain into a tombstone that can be handed out again, marks the header dirty, writes no slot outside that tail -- also when it stops on a read error -- and terminates on a proper chain."
+
+# ---------------------------------------------------------------- U84 (Verus: the value-table operations a column calls -- dispatch to the chain / counter functions)
+UNIT_META["value_ops"] = {"functions": ["table::ValueTable::{write_insert_plan, write_replace_plan, write_claimed_plan, write_remove_plan, write_inc_ref, write_dec_ref}"],
+                          "assumes": ["overwrite_chain, clear_chain, clear_slot and change_ref enter by uninterpreted relations between the record before and after the call -- what those relations mean is proved in units chain_write / chain_replace / chain_clear / free_list / ref_change_frame"]}
+for _p in ("C06", "C07"):
+    PROPS[_p]["verus_units"] = list(PROPS[_p].get("verus_units", [])) + ["value_ops"]
+PROPS["C07"]["claim"] = PROPS["C07"]["claim"] + " write_dec_ref (Verus) keeps a value exactly when change_ref reports its count still positive and otherwise releases its storage (all parts of a chained value); write_inc_ref raises the count by one."
+PROPS["C06"]["claim"] = PROPS["C06"]["claim"] + " The table operations a column calls dispatch to these functions in the right mode (Verus): insert = a fresh value on a free slot, replace = overwrite in place following the stored chain, claimed = a claimed slot written without following what it held, remove = the whole chain on a chained table and the one slot otherwise."
